@@ -12,6 +12,7 @@ import (
 	"strings"
 	"sync"
 	"testing"
+	"time"
 
 	"github.com/hashicorp/go-hclog"
 	"github.com/hashicorp/nodeenrollment"
@@ -34,11 +35,12 @@ func TestMain(m *testing.M) {
 }
 
 type client struct {
-	id     int
-	kind   string
-	a      *vkit.Actor
-	token  string
-	tstate *structpb.Struct
+	id        int
+	kind      string
+	a         *vkit.Actor
+	token     string
+	twinToken string
+	tstate    *structpb.Struct
 	// results
 	conn net.Conn
 	err  error
@@ -58,7 +60,8 @@ func TestProp_ConcurrentHandshakes(t *testing.T) {
 	vkit.SetRapidChecks(vkit.N(25))
 	rapid.Check(t, func(t *rapid.T) {
 		wrapper := rapid.Bool().Draw(t, "storageWrapper")
-		w := vkit.NewWorld(vkit.WorldConfig{StorageWrapper: wrapper})
+		backend := rapid.SampledFrom([]vkit.Backend{vkit.Inmem, vkit.Inmem, vkit.StoreOnce}).Draw(t, "serverBackend")
+		w := vkit.NewWorld(vkit.WorldConfig{Backend: backend, StorageWrapper: wrapper})
 		defer w.Close()
 		// the application's option slice
 		nOpt := rapid.IntRange(0, 10).Draw(t, "optionCount")
@@ -97,7 +100,7 @@ func TestProp_ConcurrentHandshakes(t *testing.T) {
 			for i := 0; i < n; i++ {
 				idc++
 				c := &client{id: idc}
-				c.kind = rapid.SampledFrom([]string{"auth", "auth", "token", "token", "fetch-unauthorized", "fetch-authorized", "forged-nonce", "foreign-cert", "malformed-chunks", "token-for-enrolled-key", "token-after-rejected-probe"}).Draw(t, "kind")
+				c.kind = rapid.SampledFrom([]string{"auth", "auth", "token", "token", "fetch-unauthorized", "fetch-authorized", "forged-nonce", "foreign-cert", "malformed-chunks", "token-for-enrolled-key", "token-after-rejected-probe", "token-with-twin"}).Draw(t, "kind")
 				kinds[c.kind]++
 				switch c.kind {
 				case "auth", "forged-nonce", "foreign-cert", "malformed-chunks":
@@ -109,7 +112,14 @@ func TestProp_ConcurrentHandshakes(t *testing.T) {
 					if err := w.Enroll(c.a, eo...); err != nil {
 						t.Fatalf("enroll: %v", err)
 					}
-				case "token", "token-after-rejected-probe":
+				case "token", "token-after-rejected-probe", "token-with-twin":
+					if c.kind == "token-with-twin" {
+						// a second valid token, presented for the SAME key at the same moment
+						var terr error
+						if _, c.twinToken, terr = registration.CreateServerLedActivationToken(w.Ctx, w.Store, &types.ServerLedRegistrationRequest{}, w.O()...); terr != nil {
+							t.Fatalf("twin token: %v", terr)
+						}
+					}
 					var to []nodeenrollment.Option
 					if rapid.IntRange(0, 2).Draw(t, "tokenHasState") > 0 {
 						c.tstate = vkit.UniqueStruct(fmt.Sprintf("token-state-%d", c.id))
@@ -148,6 +158,41 @@ func TestProp_ConcurrentHandshakes(t *testing.T) {
 				clients = append(clients, c)
 			}
 			before := w.Rec.Snapshot()
+			// The harness owns the storage, so it can hold the schedule where it matters:
+			// for keys that enrol twice at once, the first two look-ups of the key's node
+			// record are answered together (each waits for the other, at most 150 ms), so
+			// that both enrollments see "no record yet" before either stores one.
+			type rendezvous struct {
+				mu      sync.Mutex
+				arrived int
+				both    chan struct{}
+			}
+			twins := map[string]*rendezvous{}
+			for _, c := range clients {
+				if c.kind == "token-with-twin" {
+					twins[c.a.KeyID] = &rendezvous{both: make(chan struct{})}
+				}
+			}
+			if len(twins) > 0 {
+				w.Rec.Fault = func(i int, op vkit.Op) error {
+					if rv := twins[op.ID]; rv != nil && op.Kind == "load" && op.Type == "NodeInformation" {
+						rv.mu.Lock()
+						rv.arrived++
+						n := rv.arrived
+						if n == 2 {
+							close(rv.both)
+						}
+						rv.mu.Unlock()
+						if n <= 2 {
+							select {
+							case <-rv.both:
+							case <-time.After(150 * time.Millisecond):
+							}
+						}
+					}
+					return nil
+				}
+			}
 			start := make(chan struct{})
 			var wg sync.WaitGroup
 			for _, c := range clients {
@@ -175,6 +220,23 @@ func TestProp_ConcurrentHandshakes(t *testing.T) {
 							_ = r.Conn.Close()
 						}
 						c.conn, c.err = rig.Dial(c.a, extra, st, nodeenrollment.WithActivationToken(c.token))
+					case "token-with-twin":
+						// the same key enrols twice at once: the honest dial with its token, and a
+						// raw fetch handshake with the second token. They conflict by nature (one
+						// key, one record): either may win, but whoever is accepted keeps its record.
+						var twg sync.WaitGroup
+						twg.Add(1)
+						go func() {
+							defer twg.Done()
+							info := c.a.Info()
+							info.Nonce = vkit.TokenNonce(c.twinToken)
+							self := vkit.MintLeaf(nil, vkit.LeafSpec{Pub: c.a.CertPub, SKI: c.a.CertPkix, NB: vkit.TS0().Add(-60e9), NA: vkit.TS0().Add(60e9), SelfSign: c.a.CertPriv, IsCA: true})
+							if r := (&vkit.AdvClient{NextProtos: vkit.FetchProtos(vkit.Sign(info, c.a.CertPriv)), Chain: [][]byte{self}, Key: c.a.CertPriv}).Handshake(rig.Addr); r.Conn != nil {
+								_ = r.Conn.Close()
+							}
+						}()
+						c.conn, c.err = rig.Dial(c.a, extra, st, nodeenrollment.WithActivationToken(c.token))
+						twg.Wait()
 					case "token":
 						c.conn, c.err = rig.Dial(c.a, extra, st, nodeenrollment.WithActivationToken(c.token))
 					case "token-for-enrolled-key":
@@ -223,6 +285,7 @@ func TestProp_ConcurrentHandshakes(t *testing.T) {
 			close(start)
 			wg.Wait()
 			outs := rig.Sync()
+			w.Rec.Fault = nil
 			var kl []string
 			for k, v := range kinds {
 				kl = append(kl, fmt.Sprintf("%s=%d", k, v))
@@ -285,6 +348,17 @@ func TestProp_ConcurrentHandshakes(t *testing.T) {
 					if c.err != nil || seen[c.id] != 1 {
 						fail("honest-client-outcome/"+c.kind, "client %d (%s): dial error %v, authenticated connections reported for it: %d (expected exactly 1)", c.id, c.kind, c.err, seen[c.id])
 					}
+				case "token-with-twin":
+					// either enrollment may win; a node that WAS accepted must be reported exactly once
+					if c.err == nil && seen[c.id] != 1 {
+						fail("honest-client-outcome/token-with-twin", "client %d: dial succeeded, authenticated connections reported for it: %d (expected exactly 1)", c.id, seen[c.id])
+					}
+					// ... and the record of whoever won is there afterwards
+					// (two valid, unused tokens were presented for a key without a record: handled
+					// one after the other, the first enrols the key; so one of them does here)
+					if _, lerr := types.LoadNodeInformation(w.Ctx, w.Inner, c.a.KeyID, w.O()...); lerr != nil {
+						fail("record-of-accepted-enrollment-missing", "client %d: two valid tokens were presented for its key at the same moment; afterwards the key has NO node record (dial error: %v; load: %v) - the enrollment that was accepted lost its record", c.id, c.err, lerr)
+					}
 				case "fetch-unauthorized":
 					if !errors.Is(c.err, nodeenrollment.ErrNotAuthorized) {
 						fail("unauthorized-fetch-outcome", "client %d: unauthorized fetch returned %v", c.id, c.err)
@@ -309,7 +383,7 @@ func TestProp_ConcurrentHandshakes(t *testing.T) {
 			}
 			expectNew := map[string]*client{}
 			for _, c := range clients {
-				if c.kind == "token" || c.kind == "token-after-rejected-probe" {
+				if c.kind == "token" || c.kind == "token-after-rejected-probe" || c.kind == "token-with-twin" {
 					expectNew["NodeInformation/"+c.a.KeyID] = c
 				}
 			}
@@ -326,6 +400,9 @@ func TestProp_ConcurrentHandshakes(t *testing.T) {
 				if err != nil {
 					fail("new-record-unreadable", "%v", err)
 					continue
+				}
+				if c.kind == "token-with-twin" {
+					continue // the record is the winner's: either token's state
 				}
 				if !(proto.Equal(ni.State, c.tstate) || (c.tstate == nil && len(ni.State.GetFields()) == 0)) {
 					fail("token-state-crossed", "node enrolled with token of client %d carries state %q instead of its own token's state (or, for a token without state, the listener's configured default)", c.id, markerOf(ni.State))
